@@ -683,6 +683,9 @@ class Store:
                     'value', config.get('_value'))
                 if isinstance(self.value, Quantity):
                     self.units = self.value.units
+                    self.serializer = (self.serializer or
+                                       serializer_registry.access(
+                                        str(QuantitySerializer.python_type)))
 
             if '_updater' in config:
                 new_updater = config['_updater']
@@ -1047,16 +1050,27 @@ class Store:
         if self.emit:
             if self.serializer:
                 if isinstance(self.value, list) and self.units:
-                    return [self.serializer.serialize(v.to(self.units))
+                    return [self.serializer.serialize(self._in_units(v))
                             for v in self.value]
                 if self.units:
                     return self.serializer.serialize(
-                        self.value.to(self.units))
+                        self._in_units(self.value))
                 return self.serializer.serialize(self.value)
             if self.units:
-                return self.value.to(self.units).magnitude
+                return self._in_units(self.value).magnitude
             return self.value
         return None
+
+    def _in_units(self, value):
+        """``value`` as a quantity in the declared units of this variable.
+
+        Values placed with :py:meth:`set_value` (initial states, divider
+        results such as the zeros of the ``zero`` divider) may be plain
+        numbers: they are numbers of the declared units.
+        """
+        if isinstance(value, Quantity):
+            return value.to(self.units)
+        return value * self.units
 
     def set_emit_values(self, paths=None, emit=False):
         """
